@@ -67,6 +67,7 @@ F = [
 for f in F:
     f['status'] = 'open'
 FIXED = [
+ 'fixed: property=C17 b11c0fc a build_node() derivative tagged for the process pool killed the pool worker (method pickled under the wrong name) (witnesses/D31.json)',
  'fixed: property=C02 7b7a1b7 hang when a node needed outside a one-of had failed inside a one-of branch and the outside sub-pipeline had no task of its own for it (witnesses/D30.json); also C05 C09',
  'fixed: property=C10 17020fc the early exit of a failed one-of candidate cancelled node executions other sub-pipelines were waiting for: None delivered as a value (witnesses/D28.json); also C03 C05',
  'fixed: property=C11 fd8858b with a suspending artifact store a recurrent subgraph was iterated again after exhaustion by a late task of its destination (witnesses/D29.json)',
